@@ -62,5 +62,26 @@ def dump_optional(pb, pc, va, vb, vc):
           family="model dumpers with optional output fields: a raising field dumper fails the dump in every mode",
           bounds="TypedDict with 2 NotRequired keys (presence bits) and a dataclass; payloads symbolic; dumper raises KeyError / AttributeError / IndexError for 3 codes")
     mods.append(mo)
+    mx = Module("c06_extra").pre('''
+RS = six_retorts()
+SA_TYPES = (Set[Any], FrozenSet[object], Union[FrozenSet[Any], List[Any]], Dict[str, Set[Any]], List[FrozenSet[object]], Optional[Set[Any]])
+SA_LD = [{k: r.get_loader(t) for k, r in RS.items()} for t in SA_TYPES]
+ELS = (1, [1], {}, (1,), None, "a", [[]], {"k": [1]})
+def any_sets_agree(ti, k0, k1, wrap):
+    """sets whose elements are taken as is: the three debug modes agree on the KIND of outcome (value / LoadError / other exception) and on the value"""
+    els = [ELS[pick(k0, 8)], ELS[pick(k1, 8)]]
+    ti = pick(ti, len(SA_TYPES))
+    data = {"k": els} if ti == 3 else ([els] if ti == 4 else els)
+    if wrap: data = None if ti == 5 else 5
+    for strict in (True, False):
+        outs = [outcome(SA_LD[ti][(strict, dt)], data) for dt in DT_MODES]
+        if len({o[0] for o in outs}) != 1: return False
+        if outs[0][0] == "ok" and not (outs[0][2] == outs[1][2] == outs[2][2]): return False
+    return True
+''')
+    mx.ob("any_sets_modes_agree", "ti: int, k0: int, k1: int, wrap: bool", "return any_sets_agree(ti, k0, k1, wrap)", pre=["0 <= ti < 6", "0 <= k0 < 8 and 0 <= k1 < 8"], timeout=120,
+          family="sets with as-is elements (Any / object): hashable and unhashable elements, the three debug modes agree on the kind of outcome",
+          bounds="6 types (Set[Any], FrozenSet[object], inside Union / Dict / List / Optional) x 2 elements from an 8-value pool (int, list, dict, tuple, None, str, nested) x strict / lax")
+    mods.append(mx)
     return Plan("C06", mods, assumptions=["CrossHair models of builtins (floats as reals: numeric boundary regions are owned by the E2 kernels)"],
                 bounds={}, outside=["strings longer than the bound"])
